@@ -126,24 +126,32 @@ def check(P: Project, R: Report) -> None:
         _chunks.line_cut_discipline(R, "R2", rd, loop, [bufname], rd.qual)
     buf = bufname
     R.need(buf is not None, "anchor: the read loop has no carry-over buffer")
-    init_outside = [s_ for s_ in walk_local(rd.node) if isinstance(s_, ast.Assign) and ast.unparse(s_.targets[0]) == buf and s_ not in list(walk_local(loop))]
+    init_outside = [s_ for s_ in walk_local(rd.node) if ((isinstance(s_, ast.Assign) and ast.unparse(s_.targets[0]) == buf) or (isinstance(s_, ast.AnnAssign) and s_.value is not None and ast.unparse(s_.target) == buf)) and s_ not in list(walk_local(loop))]
     R.ob("R2", "buffer is initialised outside the loop and extended by every chunk", len(init_outside) == 1, rel, f"initialisations outside the loop: {len(init_outside)}")
     verdict = None  # (ok, detail, line loop)
     parts_name = None
     LF = ("'\\n'", "b'\\n'")
     split_assigns = [s_ for s_ in walk_local(loop) if isinstance(s_, ast.Assign) and isinstance(s_.value, ast.Call) and isinstance(s_.value.func, ast.Attribute) and s_.value.func.attr == "split" and ast.unparse(s_.value.func.value) == buf]
     rebinds = [s_ for s_ in walk_local(loop) if isinstance(s_, ast.Assign) and any(ast.unparse(t) == buf for t in s_.targets)]
+    def _iter_text(l_, parts_=None):
+        """the iterable of an inner loop, read through a local bound once inside the read loop (`items = lines[:-1]; for x in items`)"""
+        if isinstance(l_.iter, ast.Name) and l_.iter.id != parts_:
+            ds_ = [s_ for s_ in walk_local(loop) if isinstance(s_, ast.Assign) and len(s_.targets) == 1 and isinstance(s_.targets[0], ast.Name) and s_.targets[0].id == l_.iter.id]
+            if len(ds_) == 1:
+                return ast.unparse(ds_[0].value)
+        return ast.unparse(l_.iter)
+
     for sa_ in split_assigns:
         tgt = sa_.targets[0]
         args = [ast.unparse(a) for a in sa_.value.args]
         if isinstance(tgt, ast.Name) and len(args) == 1 and args[0] in LF:
             parts = tgt.id
             parts_name = parts
-            loops_all = [l for l in walk_local(loop) if isinstance(l, ast.For) and ast.unparse(l.iter) in (parts, f"{parts}[:-1]")]
+            loops_all = [l for l in walk_local(loop) if isinstance(l, ast.For) and _iter_text(l, parts) in (parts, f"{parts}[:-1]")]
             rb = [r for r in rebinds if r is not sa_]
             if len(rb) == 1 and len(loops_all) == 1:
                 rbv = ast.unparse(rb[0].value)
-                it = ast.unparse(loops_all[0].iter)
+                it = _iter_text(loops_all[0], parts)
                 if rbv == f"{parts}[-1]" and it == f"{parts}[:-1]":
                     verdict = (True, "lines = buf.split(LF); buf = lines[-1]; for line in lines[:-1]", loops_all[0])
                 elif rbv == f"{parts}.pop()" and it == parts and rb[0].lineno < loops_all[0].lineno:
@@ -154,7 +162,7 @@ def check(P: Project, R: Report) -> None:
                     verdict = (False, f"the carry-over is `{rbv}`, not the last fragment: a message cut by a read boundary loses its first part", loops_all[0])
         elif isinstance(tgt, ast.Tuple) and len(tgt.elts) == 2 and isinstance(tgt.elts[0], ast.Starred) and ast.unparse(tgt.elts[1]) == buf and len(args) == 1 and args[0] in LF:
             parts = ast.unparse(tgt.elts[0].value)
-            loops_all = [l for l in walk_local(loop) if isinstance(l, ast.For) and ast.unparse(l.iter) == parts]
+            loops_all = [l for l in walk_local(loop) if isinstance(l, ast.For) and _iter_text(l, parts) == parts]
             if len(loops_all) == 1:
                 verdict = (True, "*lines, buf = buf.split(LF); for line in lines", loops_all[0])
     R.need(verdict is not None, "the carry-over idiom of the read loop is written in a shape this rule cannot read (known: lines[-1]/lines[:-1], lines.pop(), *lines, buf = …)")
